@@ -8,16 +8,23 @@ import RedisVerif.Lemmas.ConnFix
 /-
   C04 — pipelining: exactly one reply per command, in order, however the bytes arrive.
 
-  (The recognisers' length arithmetic is `checked_add` and the generic decoder is the repaired
-  `codec1` after the fix commits: `cfg14`.  `cfgPinned` is the configuration of the pinned code —
-  wrapping arithmetic, `codec1Pinned` — for the counterexamples about the behaviour before the fixes.)
-
   Theorems about `Conn.run` (Model/Conn.lean), the transcription of the read loop of
   `OptimizedConnectionHandler` with its batching gate, the two collectors, the fast path and the
-  generic decoder, INCLUDING the constant `HEADER_LEN = 14` as written: the model is parameterised
-  by `headerLen`, the theorems are about `headerLen = 14` (the code that exists), and the
-  statements for `headerLen = 13` — the "obvious" one-character fix of the constant — are refuted
-  by kernel-checked counterexamples (commands are consumed and never answered).
+  generic decoder.
+
+  THE CODE AS IT IS (fix de38a13 of the GET/SET recognisers landed: HEADER_LEN = 13, LF / UTF-8 tests, an
+  incomplete frame is left to the generic parser, collected commands are always executed, the gate
+  asks the ACL) is `Config.repaired = true ∧ headerLen = 13` — `cfgR`, `Repaired13`: SECTION 6.  Its
+  theorems are obtained from sections 1–5 through `repaired_transparent` (for every byte stream the
+  repaired connection does what it does with the recognisers off, up to the path label).
+
+  Sections 1–5 are about `DeadCfg` configurations — the reference loop (repaired code, user without
+  unrestricted keys: the recognisers are never entered) and the PINNED code (`repaired = false`,
+  HEADER_LEN = 14 as it was written: off by one, dead for well-formed frames; `cfg14`, `cfgG`,
+  `cfgPinned`), kept so that the counterexamples about the behaviour before the fixes (look-alike
+  frames accepted / dropped / stalled, the one-character "fix" HEADER_LEN = 13 alone losing replies:
+  `cfg13`, wrapping length arithmetic, the white-space-only command name, the pinned decoder) stay
+  kernel-checked statements about the same model.
 
   A pipeline is `cmds : List Cmd` (`Cmd` = the list of its bulk-string arguments); its byte stream is
   `stream cmds`; a segmentation is any `segs : List Bytes` with `segs.flatten = stream cmds`; the
@@ -50,9 +57,10 @@ def cmdPing : Cmd := [[80, 73, 78, 71]]
 def cfg14 : Config := { minPipeline := 60, batchThreshold := 2, headerLen := 14, readSize := 8192,
                         maxBuffer := 1000000, checked := true, nameGuard := false, codec := codec1,
                         env := { depth := 64, mem := 1073741824 } }
-/-- THE CODE AS IT IS since fix 5f3bab5 of `check_acl_permission` (`parts.first()`); `cfg14` keeps the
-    pinned `parts[0]` (`nameGuard := false`) for the counterexamples about the behaviour before the fix
-    (for pipelines without an empty / white-space-only command name the two behave alike: `CmdOK`) -/
+/-- the pinned recognisers (HEADER_LEN = 14) with the guarded `check_acl_permission` of fix 5f3bab5
+    (`parts.first()`); `cfg14` keeps the pinned `parts[0]` (`nameGuard := false`) for the counterexamples
+    about the behaviour before that fix (for pipelines without an empty / white-space-only command name the
+    two behave alike: `CmdOK`).  The code as it is: `cfgR` (section 6) -/
 def cfgG : Config := { cfg14 with nameGuard := true }
 /-- the code before the fix commits: wrapping length arithmetic, the pinned decoder -/
 def cfgPinned : Config := { cfg14 with checked := false, codec := codec1Pinned }
@@ -82,7 +90,8 @@ theorem segmentation_independent_cmdok (cfg : Config) (h14 : DeadCfg cfg) (hc : 
     run cfg segs = execAll cmds :=
   run_wf cfg h14 hc hd cmds segs h hs hmax hok
 
-/-- HEADER_LEN = 14 and the guarded `check_acl_permission` — the code as it is (fix 5f3bab5) -/
+/-- HEADER_LEN = 14 (the recognisers before fix de38a13) and the guarded `check_acl_permission` (fix 5f3bab5);
+    for the code as it is: `segmentation_independent_repaired` -/
 theorem segmentation_independent : C04_segmentation_independent 14 true :=
   fun cfg h14 hr hg hc hd cmds segs h hs hmax =>
     run_wf cfg (DeadCfg.of14 hr h14) hc (by omega) cmds segs h hs hmax (fun _ _ => ⟨hd, Or.inl hg⟩)
@@ -340,8 +349,8 @@ example : hasCrash (run cfg14 [stream [cmdPing] ++ getHugeLen.take 20, getHugeLe
     replyCount (run cfg14 [stream [cmdPing] ++ getHugeLen.take 20, getHugeLen.drop 20]) = 2 ∧
     replyCount (run cfg14 [stream [cmdPing], [36, 45, 50, 13, 10]]) = 2 := by decide
 
-/-- PART 2 (no silence) still FAILS — known finding, not repaired: the recognisers index with 14 into
-    a 13-byte header, so the malformed look-alike is executed as `GET k` by the fast path (a data
+/-- PART 2 (no silence) FAILED before fix de38a13 (PINNED behaviour; for the code as it is:
+    `malformed_is_error_repaired`): the recognisers indexed with 14 into a 13-byte header, so the malformed look-alike is executed as `GET k` by the fast path (a data
     reply, not an error) … -/
 theorem malformed_accepted_counterexample :
     replyCount (run cfg14 [getLookalike]) = 1 ∧ hasCrash (run cfg14 [getLookalike]) = false ∧
@@ -689,14 +698,15 @@ example : (runW cfg14 refExec ExSt.init [.accept 6, .fail] [stream [cmdSetKV, cm
     (runW cfg14 refExec ExSt.init [.accept 6, .accept 0] [stream [cmdSetKV, cmdGetK, cmdPing]] none).ended = true := by
   decide
 
-/-! ## 6. the PREPARED FIX of the recognisers (`fixes-conn-s4`: HEADER_LEN = 13, LF and UTF-8 tests, an
+/-! ## 6. THE CODE AS IT IS: the repaired recognisers (fix de38a13, prepared as 32f1749 on `fixes-conn-s4`: HEADER_LEN = 13, LF and UTF-8 tests, an
 incomplete frame is left to the generic parser, collected commands are always executed, the gate
 asks the ACL) — `Config.repaired = true`, `headerLen = 13`
 
-The six known findings `C04:malformed-{accepted,silence}:*-lookalike`, `C04:malformed-stall:*-lookalike-prefix`
-have ONE cause (the recognisers index a 13-byte header with 14); changing the constant alone is
-refuted above (`header13_counterexample`).  What follows is proved about the model of the REPAIRED
-code (the model follows the source through `VERIF_C04_INCOMPLETE` / `VERIF_C04_HEADER_LEN`). -/
+The six findings `C04:malformed-{accepted,silence}:*-lookalike`, `C04:malformed-stall:*-lookalike-prefix` (fixed)
+had ONE cause (the recognisers index a 13-byte header with 14); changing the constant alone is
+refuted above (`header13_counterexample`).  What follows is proved about the model of the repaired
+code (the model follows the source through `VERIF_C04_INCOMPLETE` / `VERIF_C04_HEADER_LEN`; `./check`
+reports a broken proof obligation when the source reads anything but 13 / `NotFastPath`). -/
 
 /-- the repaired code with the default thresholds -/
 def cfgR : Config := { cfg14 with headerLen := 13, nameGuard := true, repaired := true }
@@ -834,6 +844,21 @@ example : firstIsProtoErr (run cfgR [getLookalike]) = true ∧ replyCount (run c
     replyCount (run cfgR [stream [cmdGetK, cmdPing, cmdPing, cmdPing]]) = 4 ∧
     hasDropped (run cfgR [stream [cmdGetK, cmdPing, cmdPing, cmdPing]]) = false := by decide
 
+/-- an executor that answers a frame the same on every path does not see the path labels -/
+theorem encActs_noPath {σ : Type} (ex : Exec σ) (hex : ∀ s f p, ex s f p = ex s f .generic) :
+    ∀ (acts : List Action) (s : σ), encActs ex s (acts.map Action.noPath) = encActs ex s acts := by
+  intro acts
+  induction acts with
+  | nil => intro s; rfl
+  | cons a as ih =>
+    intro s
+    cases a with
+    | exec f p => simp only [List.map_cons, Action.noPath, encActs, ih, hex s f p]
+    | dropped f => simp only [List.map_cons, Action.noPath, encActs, ih]
+    | protoErr => simp only [List.map_cons, Action.noPath, encActs, ih]
+    | overflow => simp only [List.map_cons, Action.noPath, encActs, ih]
+    | crash => simp only [List.map_cons, Action.noPath, encActs]
+
 /-- the bytes on the wire, repaired code: for every executor that answers a frame the same on every
     path (`get_direct` IS GET, `set_direct` IS plain SET: C03's `execVia_refines`), every well-formed
     pipeline, every segmentation of the reads and of the writes, the client receives exactly the
@@ -846,21 +871,67 @@ theorem bytes_written_repaired (σ : Type) (ex : Exec σ) (s0 : σ) (hex : ∀ s
     (runW cfg ex s0 script segs none).out = replyBytes ex s0 (cmds.map cmdFrame) := by
   have hrun := segmentation_independent_repaired cfg hR.2.1 hR.1 hg hR.2.2.1 hR.2.2.2 hmb cmds segs h hs hmax
   have hnc := run_no_crash cfg hck hg hR.2.2.1 hd hmb segs
-  have henc : ∀ (acts : List Action) (s : σ), encActs ex s (acts.map Action.noPath) = encActs ex s acts := by
-    intro acts
-    induction acts with
-    | nil => intro s; rfl
-    | cons a as ih =>
-      intro s
-      cases a with
-      | exec f p => simp only [List.map_cons, Action.noPath, encActs, ih, hex s f p]
-      | dropped f => simp only [List.map_cons, Action.noPath, encActs, ih]
-      | protoErr => simp only [List.map_cons, Action.noPath, encActs, ih]
-      | overflow => simp only [List.map_cons, Action.noPath, encActs, ih]
-      | crash => simp only [List.map_cons, Action.noPath, encActs]
-  rw [runW_eq cfg ex s0 script segs hnf hnc, ← henc, hrun, encActs_execAll]
+  rw [runW_eq cfg ex s0 script segs hnf hnc, ← encActs_noPath ex hex, hrun, encActs_execAll]
 
 example : ∀ (s : ExSt) (f : Val) (p : Path), refExec s f p = refExec s f .generic := fun _ _ _ => rfl
+
+/-- NOTHING IS WITHHELD WHILE THE CLIENT WAITS, the code as it is: the client has sent ANY PREFIX of a
+    well-formed pipeline (cut at any byte), in any segmentation, and waits — exactly the commands complete
+    in what it sent have been executed (on whichever path) and the bytes it has received are exactly
+    their replies: no reply is stranded until more input arrives, no recogniser waits for bytes the
+    decoder does not need -/
+theorem nothing_withheld_repaired (σ : Type) (ex : Exec σ) (s0 : σ) (hex : ∀ s f p, ex s f p = ex s f .generic)
+    (cfg : Config) (hR : Repaired13 cfg) (hck : cfg.checked = true) (hg : cfg.nameGuard = true)
+    (hd : maxNesting + 1 ≤ cfg.env.depth) (hmb : cfg.maxBuffer < 72057594037927936)
+    (cmds : List Cmd) (segs : List Bytes) (rest : Bytes) (script : List WEv) (h : segs.flatten ++ rest = stream cmds)
+    (hs : Small (stream cmds)) (hmax : (stream cmds).length ≤ cfg.maxBuffer) (hnf : NoFail script = true) :
+    ∃ (done left : List Cmd) (pre : Bytes), cmds = done ++ left ∧ segs.flatten = stream done ++ pre ∧
+      (∀ c cs, left = c :: cs → pre.length < (encCmd c).length) ∧
+      (run cfg segs).map Action.noPath = execAll done ∧
+      (runW cfg ex s0 script segs none).out = replyBytes ex s0 (done.map cmdFrame) := by
+  obtain ⟨done, left, pre, e1, e2, e3, e4, _⟩ :=
+    nothing_withheld σ ex s0 cfg.off (DeadCfg.off cfg hR.1) hR.2.2.1
+      (by have : cfg.off.env = cfg.env := rfl; rw [this]; unfold maxNesting at hd; omega)
+      cmds segs rest script h hs hmax (fun _ _ => ⟨hR.2.2.2, Or.inl hg⟩) hnf
+  have htr := run_transparent cfg hR hmb segs
+  have hrun : (run cfg segs).map Action.noPath = execAll done := by rw [htr, e4, noPath_execAll]
+  have hnc := run_no_crash cfg hck hg hR.2.2.1 hd hmb segs
+  refine ⟨done, left, pre, e1, e2, e3, hrun, ?_⟩
+  rw [runW_eq cfg ex s0 script segs hnf hnc, ← encActs_noPath ex hex, hrun, encActs_execAll]
+
+/-- a peer that fails, closes or stops at ANY point, a `read()` that fails: the client of the code as
+    it is has received a PREFIX of the correct reply stream -/
+theorem written_is_prefix_repaired (σ : Type) (ex : Exec σ) (s0 : σ) (hex : ∀ s f p, ex s f p = ex s f .generic)
+    (cfg : Config) (hR : Repaired13 cfg) (hck : cfg.checked = true) (hg : cfg.nameGuard = true)
+    (hd : maxNesting + 1 ≤ cfg.env.depth) (hmb : cfg.maxBuffer < 72057594037927936)
+    (cmds : List Cmd) (segs : List Bytes) (script : List WEv) (stopAfter : Option Nat) (h : segs.flatten = stream cmds)
+    (hs : Small (stream cmds)) (hmax : (stream cmds).length ≤ cfg.maxBuffer) :
+    (runW cfg ex s0 script segs stopAfter).out <+: replyBytes ex s0 (cmds.map cmdFrame) := by
+  have hrun := segmentation_independent_repaired cfg hR.2.1 hR.1 hg hR.2.2.1 hR.2.2.2 hmb cmds segs h hs hmax
+  have hnc := run_no_crash cfg hck hg hR.2.2.1 hd hmb segs
+  have := runW_prefix cfg ex s0 script segs stopAfter hnc
+  rwa [← encActs_noPath ex hex, hrun, encActs_execAll] at this
+
+/-- END TO END with C15, the code as it is: a client that feeds what it receives — cut into ANY
+    fragments — to the buffer loop around either decoder obtains exactly one frame per command, in
+    command order, nothing left over -/
+theorem client_decodes_one_reply_per_command_repaired (σ : Type) (ex : Exec σ) (s0 : σ)
+    (hex : ∀ s f p, ex s f p = ex s f .generic)
+    (cfg : Config) (hR : Repaired13 cfg) (hck : cfg.checked = true) (hg : cfg.nameGuard = true)
+    (hd : maxNesting + 1 ≤ cfg.env.depth) (hmb : cfg.maxBuffer < 72057594037927936)
+    (cmds : List Cmd) (segs : List Bytes) (script : List WEv) (h : segs.flatten = stream cmds)
+    (hs : Small (stream cmds)) (hmax : (stream cmds).length ≤ cfg.maxBuffer) (hnf : NoFail script = true)
+    (c : Codec) (hcc : c = codec1 ∨ c = codec2) (cenv : Env) (hcd : 1 ≤ cenv.depth)
+    (hval : ∀ s f p, ValOK c cenv (ex s f p).2)
+    (chunks : List Bytes) (hch : chunks.flatten = (runW cfg ex s0 script segs none).out)
+    (hsm : Small (runW cfg ex s0 script segs none).out) :
+    feedAll (fun b => (parseG c cenv b).out) FeedSt.init chunks =
+      ⟨(replyVals ex s0 (cmds.map cmdFrame)).map (fun v => Frame.val v.san), [], false⟩ ∧
+    (replyVals ex s0 (cmds.map cmdFrame)).length = cmds.length := by
+  have hb := bytes_written_repaired σ ex s0 hex cfg hR hck hg hd hmb cmds segs script h hs hmax hnf
+  rw [hb, replyBytes_eq] at hch hsm
+  refine ⟨feedAll_encoded c hcc cenv hcd _ (replyVals_ok ex _ hval _ _) chunks hch hsm, ?_⟩
+  rw [replyVals_length, List.length_map]
 
 /-! ## 5. the MIRROR the repository's own connection tests use (Model/ConnSim.lean)
 
